@@ -73,16 +73,68 @@ func fatal(format string, a ...interface{}) {
 	os.Exit(2)
 }
 
+// altRepo: evaluation of a seeded change without touching /repo.  With VERIF_REPO=<dir> the
+// harness is built against that copy of the library (generated -modfile) and every output goes
+// under .build/eval/<tag>/ instead of /verif/evidence.  Registered commands never set it.
+func altRepo() (dir, tag string) {
+	dir = os.Getenv("VERIF_REPO")
+	if dir == "" {
+		return "", ""
+	}
+	tag = strings.NewReplacer("/", "_", ".", "_").Replace(strings.Trim(dir, "/"))
+	return dir, tag
+}
+
+// childBuildDir is what the child sees as $VERIF_BUILD (where the macat binary lives).
+func childBuildDir() string {
+	if _, tag := altRepo(); tag != "" {
+		return filepath.Join(outRoot(), "bin")
+	}
+	return filepath.Join(verifRoot, ".build")
+}
+
+func repoDir() string {
+	if d, _ := altRepo(); d != "" {
+		return d
+	}
+	return "/repo"
+}
+
+func outRoot() string {
+	if _, tag := altRepo(); tag != "" {
+		d := filepath.Join(verifRoot, ".build", "eval", tag)
+		os.MkdirAll(d, 0o755)
+		return d
+	}
+	return verifRoot
+}
+
 func build(p propDef) (string, error) {
 	bdir := filepath.Join(verifRoot, ".build")
 	os.MkdirAll(bdir, 0o755)
 	pkg := strings.ToLower(p.ID)
-	out := filepath.Join(bdir, pkg+".test")
+	suffix := ""
+	var modArgs []string
+	if dir, tag := altRepo(); dir != "" {
+		suffix = "." + tag
+		gm, err := os.ReadFile(filepath.Join(verifRoot, "harness", "go.mod"))
+		if err != nil {
+			return "", err
+		}
+		alt := strings.Replace(string(gm), "=> /repo", "=> "+dir, 1)
+		mf := filepath.Join(bdir, "go"+suffix+".mod")
+		os.WriteFile(mf, []byte(alt), 0o644)
+		gs, _ := os.ReadFile(filepath.Join(verifRoot, "harness", "go.sum"))
+		os.WriteFile(filepath.Join(bdir, "go"+suffix+".sum"), gs, 0o644)
+		modArgs = []string{"-modfile=" + mf}
+	}
+	out := filepath.Join(bdir, pkg+suffix+".test")
 	args := []string{"test", "-c", "-tags", "verif", "-o", out}
 	if p.Race {
-		out = filepath.Join(bdir, pkg+".race.test")
+		out = filepath.Join(bdir, pkg+suffix+".race.test")
 		args = []string{"test", "-c", "-race", "-tags", "verif", "-o", out}
 	}
+	args = append(args, modArgs...)
 	args = append(args, "./props/"+pkg)
 	cmd := exec.Command("go", args...)
 	cmd.Dir = filepath.Join(verifRoot, "harness")
@@ -92,8 +144,9 @@ func build(p propDef) (string, error) {
 	}
 	for _, bn := range p.NeedBins {
 		if bn == "macat" {
-			cmd := exec.Command("go", "build", "-o", filepath.Join(bdir, "macat"), "go.nanomsg.org/mangos/v3/macat/macat")
-			cmd.Dir = "/repo"
+			os.MkdirAll(childBuildDir(), 0o755)
+			cmd := exec.Command("go", "build", "-o", filepath.Join(childBuildDir(), "macat"), "go.nanomsg.org/mangos/v3/macat/macat")
+			cmd.Dir = repoDir()
 			cmd.Env = env()
 			if b, err := cmd.CombinedOutput(); err != nil {
 				return "", fmt.Errorf("macat build failed: %v\n%s", err, b)
@@ -124,7 +177,7 @@ func runShard(bin string, p propDef, tier string, seed int64, shard, nshards int
 		cmd.Dir = runDir
 		e := append(env(), "VERIF_TIER="+tier, "VERIF_SEED="+strconv.FormatInt(seed, 10),
 			"VERIF_OUT="+jsonl, fmt.Sprintf("VERIF_SHARD=%d/%d", shard, nshards),
-			"VERIF_RESUME_AFTER="+strconv.Itoa(resume), "VERIF_BUILD="+filepath.Join(verifRoot, ".build"),
+			"VERIF_RESUME_AFTER="+strconv.Itoa(resume), "VERIF_BUILD="+childBuildDir(),
 			"VERIF_TMP="+runDir)
 		if only != "" {
 			e = append(e, "VERIF_ONLY="+only)
@@ -401,7 +454,8 @@ func runProp(p propDef, tier string, seed int64, only string) int {
 		fmt.Fprintf(os.Stderr, "vcheck: %v\n", err)
 		return 2
 	}
-	runDir := filepath.Join(verifRoot, ".build", "run", p.ID+"-"+tier)
+	_, altTag := altRepo()
+	runDir := filepath.Join(verifRoot, ".build", "run", p.ID+"-"+tier+altTag)
 	if only != "" {
 		runDir += "-replay"
 	}
@@ -513,7 +567,7 @@ func runProp(p propDef, tier string, seed int64, only string) int {
 		}
 	}
 	// replay files
-	rdir := filepath.Join(verifRoot, "evidence", "replay")
+	rdir := filepath.Join(outRoot(), "evidence", "replay")
 	os.MkdirAll(rdir, 0o755)
 	if only == "" {
 		old, _ := filepath.Glob(filepath.Join(rdir, p.ID+"-*.json"))
@@ -587,8 +641,8 @@ func runProp(p propDef, tier string, seed int64, only string) int {
 	}
 	if only == "" {
 		b, _ := json.MarshalIndent(ev, "", " ")
-		os.MkdirAll(filepath.Join(verifRoot, "evidence"), 0o755)
-		if err := os.WriteFile(filepath.Join(verifRoot, "evidence", p.ID+".json"), b, 0o644); err != nil {
+		os.MkdirAll(filepath.Join(outRoot(), "evidence"), 0o755)
+		if err := os.WriteFile(filepath.Join(outRoot(), "evidence", p.ID+".json"), b, 0o644); err != nil {
 			fatal("%v", err)
 		}
 		if evals == 0 || (total > 0 && evals < total) {
